@@ -1,0 +1,100 @@
+//go:build verif
+
+// Contracts for the deposit path (C03); comment-only.
+package types
+
+// so the blocks of this file must not share line numbers with those of any other contracts_verif*.go in a 'types' directory)
+
+// ---- vocabulary of the deposit specification ----------------------------------------------
+//
+// The bitcoin transaction parser (btcd wire.MsgTx.DeserializeNoWitness) is a deterministic function
+// of the raw bytes. The specification talks about its result through four uninterpreted functions
+// (the summary of the parser in govc/summ_btc.go binds the parsed message to them):
+//   txparse_err(raw)     0 iff the bytes parse as a non-witness transaction
+//   txnout(raw)          number of outputs
+//   txoutval(raw, i)     value (int64, satoshi) of output i
+//   txoutscript(raw, i)  pkScript of output i
+// encpk(pk) is relayertypes.EncodePublicKey(pk): the key under which a relayer public key is registered.
+//
+//@ smt (declare-fun txparse_err (Bytes) Int)
+//@ smt (declare-fun txnout (Bytes) Int)
+//@ smt (declare-fun txoutval (Bytes Int) Int)
+//@ smt (declare-fun txoutscript (Bytes Int) Bytes)
+//@ smt (declare-fun encpk (Opt_T_relayer_types_PublicKey) Bytes)
+//
+// u64(v): the conversion uint64(v) of an int64
+//@ smt (declare-fun u64 (Int) Int)
+// (defined by the axiom attached to parser_ctx below, like taxSpec)
+//
+// taxSpec(v, r, c): the tax of C03: floor(v/10000) * r, capped by c when c > 0, nothing up to 10000 satoshi
+// taxSpec (and u64) are DECLARED here and DEFINED by the axiom of the next block. The product floor(v/10000)*r is non-linear
+// (both factors symbolic); once it is in a query next to quantified invariants the solvers time out. Only VerifyDeposit
+// needs the definition, its callers just pass `Tax == taxSpec(..)` on. The defining axiom is therefore attached to the marker
+// `parser_ctx`, which the summary of the transaction parser (govc/summ_btc.go) puts into the path facts: the definition is
+// present exactly in the functions that run the parser. (Fewer axioms elsewhere = weaker assumptions: sound.)
+//@ smt (declare-fun taxSpec (Int Int Int) Int)
+//@ smt (declare-fun parser_ctx () Bool) (assert parser_ctx) (assert (forall ((v Int)) (! (= (u64 v) (ite (< v 0) (+ v 18446744073709551616) v)) :pattern ((u64 v))))) (assert (forall ((v Int) (r Int) (c Int)) (! (= (taxSpec v r c)
+//@       (ite (and (> r 0) (> v 10000)) (ite (and (> c 0) (> (* (div v 10000) r) c)) c (* (div v 10000) r)) 0)) :pattern ((taxSpec v r c)))))
+
+// items_id / items_value / items_tax: see x/bitcoin/keeper/contracts_verif_deposit.go (NewDeposits)
+//@ smt (define-fun items_id ((rc Slc_Opt_T_bitcoin_types_DepositExecReceipt) (ds Slc_Opt_T_bitcoin_types_Deposit) (n Int)) Bool (forall ((k Int)) (! (=> (and (<= (off_Slc_Opt_T_bitcoin_types_DepositExecReceipt rc) k) (< k (+ (off_Slc_Opt_T_bitcoin_types_DepositExecReceipt rc) n)))
+//@       (let ((r (val_Opt_T_bitcoin_types_DepositExecReceipt (select (arr_Slc_Opt_T_bitcoin_types_DepositExecReceipt rc) k))) (d (val_Opt_T_bitcoin_types_Deposit (select (arr_Slc_Opt_T_bitcoin_types_Deposit ds) (+ (off_Slc_Opt_T_bitcoin_types_Deposit ds) (- k (off_Slc_Opt_T_bitcoin_types_DepositExecReceipt rc)))))))
+//@       (and (not ((_ is none_Opt_T_bitcoin_types_DepositExecReceipt) (select (arr_Slc_Opt_T_bitcoin_types_DepositExecReceipt rc) k))) (= (T_bitcoin_types_DepositExecReceipt.Txid r) (dsha256 (T_bitcoin_types_Deposit.NoWitnessTx d))) (= (T_bitcoin_types_DepositExecReceipt.Txout r) (T_bitcoin_types_Deposit.OutputIndex d)) (= (T_bitcoin_types_DepositExecReceipt.Address r) (T_bitcoin_types_Deposit.EvmAddress d))))) :pattern ((select (arr_Slc_Opt_T_bitcoin_types_DepositExecReceipt rc) k)))))
+//@ smt (define-fun items_value ((rc Slc_Opt_T_bitcoin_types_DepositExecReceipt) (ds Slc_Opt_T_bitcoin_types_Deposit) (n Int)) Bool (forall ((k Int)) (! (=> (and (<= (off_Slc_Opt_T_bitcoin_types_DepositExecReceipt rc) k) (< k (+ (off_Slc_Opt_T_bitcoin_types_DepositExecReceipt rc) n)))
+//@       (let ((r (val_Opt_T_bitcoin_types_DepositExecReceipt (select (arr_Slc_Opt_T_bitcoin_types_DepositExecReceipt rc) k))) (d (val_Opt_T_bitcoin_types_Deposit (select (arr_Slc_Opt_T_bitcoin_types_Deposit ds) (+ (off_Slc_Opt_T_bitcoin_types_Deposit ds) (- k (off_Slc_Opt_T_bitcoin_types_DepositExecReceipt rc)))))))
+//@       (= (+ (T_bitcoin_types_DepositExecReceipt.Amount r) (T_bitcoin_types_DepositExecReceipt.Tax r)) (u64 (txoutval (T_bitcoin_types_Deposit.NoWitnessTx d) (T_bitcoin_types_Deposit.OutputIndex d)))))) :pattern ((select (arr_Slc_Opt_T_bitcoin_types_DepositExecReceipt rc) k)))))
+//@ smt (define-fun items_tax ((rc Slc_Opt_T_bitcoin_types_DepositExecReceipt) (ds Slc_Opt_T_bitcoin_types_Deposit) (n Int) (rate Int) (cap Int)) Bool (forall ((k Int)) (! (=> (and (<= (off_Slc_Opt_T_bitcoin_types_DepositExecReceipt rc) k) (< k (+ (off_Slc_Opt_T_bitcoin_types_DepositExecReceipt rc) n)))
+//@       (let ((r (val_Opt_T_bitcoin_types_DepositExecReceipt (select (arr_Slc_Opt_T_bitcoin_types_DepositExecReceipt rc) k))) (d (val_Opt_T_bitcoin_types_Deposit (select (arr_Slc_Opt_T_bitcoin_types_Deposit ds) (+ (off_Slc_Opt_T_bitcoin_types_Deposit ds) (- k (off_Slc_Opt_T_bitcoin_types_DepositExecReceipt rc)))))))
+//@       (= (T_bitcoin_types_DepositExecReceipt.Tax r) (taxSpec (u64 (txoutval (T_bitcoin_types_Deposit.NoWitnessTx d) (T_bitcoin_types_Deposit.OutputIndex d))) rate cap)))) :pattern ((select (arr_Slc_Opt_T_bitcoin_types_DepositExecReceipt rc) k)))))
+
+// merkle_ok(proof, txid, idx, root): the C04 statement "txid at position idx hashes up the path proof into root"
+// (climb / shr: see contracts_verif.go). A non-recursive wrapper keeps the recursive applications out of callers' contexts.
+//@ smt (define-fun merkle_ok ((proof Bytes) (txid Bytes) (idx Int) (root Bytes)) Bool
+//@       (and (= (mod (blen proof) 32) 0) (= (climb proof 0 (div (blen proof) 32) txid idx) root) (= (shr idx (div (blen proof) 32)) 0)))
+
+// ---- stateless validation of the deposit message (C03: size and shape) ------------------------
+// MinDepositTxSize = 94 (> 64: a 64-byte "transaction" could be an inner Merkle node), MaxAllowedBtcTxSize = 32768.
+
+//@ func (*Deposit).Validate
+//@ property C03
+//@ ensures shape: err == nil ==> req != nil && len(req.EvmAddress) == 20 && req.RelayerPubkey != nil
+//@ ensures tx_size: err == nil ==> len(req.NoWitnessTx) >= 94 && len(req.NoWitnessTx) <= 32768
+//@ modifies nothing
+// (no `nopanic`: PublicKey.Validate dereferences the oneof wrapper, which panics for a typed-nil wrapper such as
+//  PublicKey{Key: (*PublicKey_Secp256K1)(nil)}; protobuf decoding never produces one, a Go caller could)
+
+//@ func (*MsgNewDeposits).Validate
+//@ property C03
+//@ ensures shape: err == nil ==> req != nil && 1 <= len(req.Deposits) && len(req.Deposits) <= 16 && 1 <= len(req.BlockHeaders) && len(req.BlockHeaders) <= len(req.Deposits)
+//@ modifies nothing
+//@ nopanic
+
+// Engine workaround: a field load under a quantifier emits its type-range fact outside the quantifier, where the bound
+// variable (named <var>!q<depth>) is free. Declaring those names as global constants makes such facts well-formed
+// (they then only bound one arbitrary array cell). Use DIRECT FIELD ACCESS ONLY (no method calls) under quantifiers.
+//@ smt (declare-const hh!q0 Int)
+//@ smt (declare-const bb!q0 Int)
+//@ smt (declare-const bb!q1 Int)
+//@ smt (declare-const jj!q0 Int)
+//@ smt (declare-const jj!q1 Int)
+//@ smt (declare-const ii!q0 Int)
+//@ smt (declare-const ii!q1 Int)
+
+// Every submitted (height, raw) pair is in the map and every header of the map is 80 bytes long.
+// (That the map holds nothing else was proved too (forall-exists clause `from_list`), but is left out: no caller needs it and
+// it slows the solvers down in NewDeposits; a spurious header could not hurt since VerifyDeposit compares with the voted hash.)
+// hdrs_sized(m): every header of the height -> header map m is 80 bytes long (explicit pattern: used only when a header is looked up)
+//@ smt (define-fun hdrs_sized ((m GoMap_Int_Bytes)) Bool (forall ((h Int)) (! (=> (select (dom_GoMap_Int_Bytes m) h) (= (blen (select (val_GoMap_Int_Bytes m) h)) 80)) :pattern ((select (val_GoMap_Int_Bytes m) h)))))
+
+//@ func (*MsgNewDeposits).BlockHeadersMap
+//@ property C03
+//@ requires req != nil
+//@ ensures sizes: err == nil ==> hdrs_sized(result)
+// (the loop invariant all_in - every submitted pair is in the map - is proved but not exported: quantified facts in the
+//  context of NewDeposits make the solvers unstable and no caller needs it)
+//@ loop 0 invariant idx: -1 <= rangeindex && rangeindex < len(req.BlockHeaders)
+//@ loop 0 invariant sizes: hdrs_sized(headers)
+//@ loop 0 invariant all_in: forall(bb, 0, rangeindex + 1, req.BlockHeaders[bb] != nil && has(headers, req.BlockHeaders[bb].Height) && headers[req.BlockHeaders[bb].Height] == req.BlockHeaders[bb].Raw)
+//@ loop 0 decreases len(req.BlockHeaders) - rangeindex
+//@ modifies nothing
+//@ nopanic
